@@ -1110,6 +1110,88 @@ pub fn run_c12(ctx: &Ctx, st: &mut Local) {
     e.exhaustive = true;
 }
 
+/// call histories through the C ABI on one thread: every ordered pair of files, with a failing call
+/// (undersized buffer) in between; each result must equal the result of the same call alone
+pub fn run_c12_hist(ctx: &Ctx, st: &mut Local) {
+    let name = "E14hist";
+    if !ctx.engine_on(name) {
+        return;
+    }
+    let s = ctx.cur;
+    let mut files = file_menu(true);
+    files.retain(|(_, f)| f.len() <= 2400);
+    files.sort_by_key(|(_, f)| f.len());
+    let n = files.len();
+    let pick: Vec<usize> = if ctx.quick() { (0..n).step_by((n / 7).max(1)).collect() } else { (0..n).step_by((n / 14).max(1)).collect() };
+    let frames: Vec<Option<Vec<u8>>> = pick.iter().map(|&i| caught(|| s.compress_zstd(&files[i].1)).ok().and_then(|r| r.ok())).collect();
+    let dec = |frame: &[u8], cap: usize| -> (i32, Vec<u8>) {
+        let mut g = Guarded::new(cap);
+        let mut rs: u64 = 0;
+        let rc = unsafe { s.c_decompress(frame.as_ptr(), frame.len() as u64, g.ptr(), cap as u64, &mut rs) };
+        (rc, if rc == 0 && rs as usize <= cap { g.out(rs as usize).to_vec() } else { vec![] })
+    };
+    let cmp = |f: &[u8]| -> (i32, usize) {
+        let cap = comp::zstd_compress_bound(f.len() * 2 + 4096);
+        let mut g = Guarded::new(cap);
+        let mut rs: u64 = 0;
+        let rc = unsafe { s.c_compress(f.as_ptr(), f.len() as u64, g.ptr(), cap as u64, &mut rs) };
+        (rc, rs as usize)
+    };
+    let mut idx = 0u64;
+    for (ai, &a) in pick.iter().enumerate() {
+        for (bi, &b) in pick.iter().enumerate() {
+            for mid in 0..3 {
+                let i = idx;
+                idx += 1;
+                count(ctx, name, st, i, true);
+                if !ctx.take(name, i) {
+                    continue;
+                }
+                let (fa, fb) = (&files[a].1, &files[b].1);
+                let (za, zb) = match (&frames[ai], &frames[bi]) {
+                    (Some(x), Some(y)) => (x, y),
+                    _ => continue,
+                };
+                st.sample(name, || format!("#{} decompress({}), {}, decompress({})", i, files[a].0, ["nothing", "undersized decompress", "compress"][mid], files[b].0));
+                ctx.begin(name, i, 60_000);
+                // a fresh OS thread per history: thread-local state starts empty, so the case does
+                // not depend on what this worker executed before (and replays alone)
+                let (r1, r2) = std::thread::scope(|sc| {
+                    sc.spawn(|| {
+                        let r1 = dec(za, fa.len() + 32);
+                        match mid {
+                            1 => {
+                                let _ = dec(zb, fb.len() / 2);
+                            }
+                            2 => {
+                                let _ = cmp(fa);
+                            }
+                            _ => {}
+                        }
+                        let r2 = dec(zb, fb.len() + 32);
+                        (r1, r2)
+                    })
+                    .join()
+                    .unwrap_or(((-99, vec![]), (-99, vec![])))
+                });
+                ctx.end();
+                if r1.0 != 0 || r1.1 != *fa {
+                    st.violation(ctx.viol(name, i, "first-call-wrong", None, format!("WrapperDecompressZip({}) status {} ", files[a].0, r1.0), fa));
+                } else if r2.0 != 0 || r2.1 != *fb {
+                    st.violation(ctx.viol(name, i, "history-dependent-result", None,
+                        format!("WrapperDecompressZip({}) after WrapperDecompressZip({}) [{}] returns status {} / {} bytes instead of the {} byte file", files[b].0, files[a].0,
+                            ["", "and an undersized call", "and a compress call"][mid], r2.0, r2.1.len(), fb.len()), fb));
+                } else {
+                    st.outcome(name, "history-independent");
+                }
+            }
+        }
+    }
+    let e = st.eng(name);
+    e.bound = format!("every ordered pair of {} files (sorted by size) through WrapperDecompressZip on one thread, with nothing / a failing undersized call / a compress call in between", pick.len());
+    e.exhaustive = true;
+}
+
 // ---------------------------------------------------------------------------------------------
 // C13: I/O environment exploration
 
